@@ -20,6 +20,14 @@ from clikit.utils._compat import decode
 from clikit.utils._compat import encode
 
 
+def _escape(text):  # type: (str) -> str
+    """
+    Escapes the text so that the formatter shows it as is instead of
+    interpreting (or choking on) style tags it may contain.
+    """
+    return text.replace("<", "\\<")
+
+
 class Highlighter(object):
 
     TOKEN_DEFAULT = "token_default"
@@ -81,12 +89,8 @@ class Highlighter(object):
         buffer = ""
         current_type = None
         source_io = io.BytesIO(encode(source))
-        formatter = PlainFormatter()
 
-        def readline():
-            return encode(formatter.remove_format(decode(source_io.readline())))
-
-        tokens = tokenize.tokenize(readline)
+        tokens = tokenize.tokenize(source_io.readline)
         line = ""
         for token_info in tokens:
             token_type, token_string, start, end, _ = token_info
@@ -97,7 +101,7 @@ class Highlighter(object):
 
             if token_type == tokenize.ENDMARKER:
                 # End of source
-                line += "<{}>{}</>".format(self._theme[current_type], buffer)
+                line += "<{}>{}</>".format(self._theme[current_type], _escape(buffer))
                 lines.append(line)
                 break
 
@@ -107,7 +111,7 @@ class Highlighter(object):
                     lines += [""] * (diff - 1)
 
                 line += "<{}>{}</>".format(
-                    self._theme[current_type], buffer.rstrip("\n")
+                    self._theme[current_type], _escape(buffer.rstrip("\n"))
                 )
 
                 # New line
@@ -141,7 +145,7 @@ class Highlighter(object):
                 buffer += token_info.line[current_col : start[1]]
 
             if current_type != new_type:
-                line += "<{}>{}</>".format(self._theme[current_type], buffer)
+                line += "<{}>{}</>".format(self._theme[current_type], _escape(buffer))
                 buffer = ""
                 current_type = new_type
 
@@ -151,7 +155,9 @@ class Highlighter(object):
                 token_lines = token_string.split("\n")
                 for token_line in token_lines[1:-1]:
                     lines.append(
-                        "<{}>{}</>".format(self._theme[current_type], token_line)
+                        "<{}>{}</>".format(
+                            self._theme[current_type], _escape(token_line)
+                        )
                     )
 
                 current_line = end[0]
@@ -235,7 +241,7 @@ class ExceptionTrace(object):
 
     def render(self, io, simple=False):  # type: (IO, bool) -> None
         if simple:
-            io.write_line("<error>{}</error>".format(str(self._exception)))
+            io.write_line("<error>{}</error>".format(_escape(str(self._exception))))
             return
 
         if not PY36:
@@ -273,7 +279,7 @@ class ExceptionTrace(object):
             io, "<error>{}</error>".format(inspector.exception_name), True
         )
         io.write_line("")
-        exception_message = io.remove_format(inspector.exception_message).replace(
+        exception_message = _escape(inspector.exception_message).replace(
             "\n", "\n  "
         )
         self._render_line(io, "<b>{}</b>".format(exception_message))
